@@ -49,7 +49,7 @@ TRUSTED = ["fake multiprocessing / clock / kill (harness/impl/fake_mp.py) under 
            "watchdogs of the simulator (a check never hangs): a worker loop that polls its task queue 200 times in one "
            "turn without consulting a simulated terminate flag is declared blind to it (stays alive: worker-left-behind); "
            "a parent that polls more than 60 times for one task is declared stuck; every simulated case runs under a "
-           "20 s SIGALRM wall-clock limit (run-blocks-forever)"]
+           "limit of 20 s of processor time (SIGPROF) and 300 s of wall time (SIGALRM): run-blocks-forever"]
 
 ALPHA = ["equal", "different", "player_raises", "extractor_raises", "exit0", "exit1", "hang", "hang_deaf",
          "slow:1", "slow:2", "slow:3", "slow:4", "slow:5", "unloadable", "put_raises"]
@@ -212,7 +212,7 @@ def to_gallina(case, obs):
     if case.get("kind") in ("real", "multi"):
         return None      # several runs: each run is compared with the same run alone (which the model covers)
     bad = "Case %s [] Full (Trace [] [] [] (0%%nat, 0%%nat) false false 0%%nat FuelOut)" % G.g_cfg(case)
-    if "driver_exception" in obs:
+    if "driver_exception" in obs or "watchdog" in obs:
         return bad
     try:
         workers = glist([gpair(glist([gnat(i) for i in served]), gnat(G.STATE_CODE[s0]), gnat(G.STATE_CODE[s1]))
